@@ -61,6 +61,12 @@ type trace struct {
 	Read  string   `json:"read,omitempty"` // first read-back (Get after reopen) that differs from the map
 	Leak  string   `json:"leak,omitempty"` // first dropped update that left a trace in the database
 	DRoots []string `json:"-"`             // roots computed by the dropped updates ("" = none)
+	// state level: blocks whose Update was REJECTED when given the root stored for the previous block as
+	// OldRoot (commitment-mismatch error) and accepted with the old root recomputed under the new block's version
+	OldRej    []int  `json:"-"`
+	OldRejErr string `json:"-"`
+	// chain level: blocks for which the stored StateUpdate.OldRoot is not the root stored in the previous header
+	OldStored []int `json:"-"`
 }
 
 type getter interface {
